@@ -1285,7 +1285,7 @@ class Executor:
             return Sc(z3.If(cond_b, b.t, a.t), a.ty)
         if isinstance(a, Tree):
             if a.origin != b.origin or a.f.keys() != b.f.keys():
-                raise NoMerge()
+                return self._vmerge_enum(a, b, cond_b)
             f = {}
             same = True
             for k in a.f:
@@ -1297,6 +1297,73 @@ class Executor:
         if self.veq(a, b):
             return a
         raise NoMerge()
+
+    def _vmerge_enum(self, a, b, cond_b):
+        """merge two enum values of different shape (explicit variants and/or lazily symbolic ones)"""
+        def enumish(t):
+            return 'discr' in t.f or (t.origin is not None and not any(isinstance(k, int) for k in t.f))
+        if not (enumish(a) and enumish(b)) or ('discr' not in a.f and 'discr' not in b.f):
+            raise NoMerge()
+        dummy = State()
+        try:
+            da = self.discr_of(dummy, a).t
+            db = self.discr_of(dummy, b).t
+        except Inconclusive:
+            raise NoMerge()
+        keys = set(k for k in a.f if isinstance(k, tuple)) | set(k for k in b.f if isinstance(k, tuple))
+        f = {'discr': Sc(z3.If(cond_b, db, da), 'isize')}
+        for k in keys:
+            ca = a.f.get(k)
+            cb = b.f.get(k)
+            if ca is None and a.origin is not None:
+                ca = self.child(dummy, a, k, None)
+            if cb is None and b.origin is not None:
+                cb = self.child(dummy, b, k, None)
+            if ca is None:
+                f[k] = cb
+            elif cb is None:
+                f[k] = ca
+            else:
+                f[k] = self._vmerge_payload(ca, cb, cond_b)
+        origin = None
+        if (a.origin is None) != (b.origin is None):
+            # variants that only the symbolic side can be in keep materialising from its origin
+            origin = a.origin or b.origin
+        elif a.origin is not None and a.origin == b.origin:
+            origin = a.origin
+        elif a.origin is not None:
+            raise NoMerge()
+        return Tree(f, origin, a.ty or b.ty, a.meta)
+
+    def _vmerge_payload(self, a, b, cond_b):
+        if isinstance(a, Tree) and isinstance(b, Tree) and a.origin != b.origin and not a.f and not b.f:
+            raise NoMerge()
+        if isinstance(a, Tree) and isinstance(b, Tree) and a.f.keys() != b.f.keys() and a.origin is None and b.origin is None \
+                and 'discr' not in a.f and 'discr' not in b.f:
+            raise NoMerge()
+        if isinstance(a, Tree) and isinstance(b, Tree) and 'discr' not in a.f and 'discr' not in b.f:
+            # variant payload tuples: merge field-wise, materialising lazily on the symbolic side
+            dummy = State()
+            keys = set(a.f) | set(b.f)
+            f = {}
+            for k in keys:
+                ca = a.f.get(k)
+                cb = b.f.get(k)
+                if ca is None and a.origin is not None:
+                    ca = self._typed_like(dummy, a, k, cb)
+                if cb is None and b.origin is not None:
+                    cb = self._typed_like(dummy, b, k, ca)
+                if ca is None or cb is None:
+                    raise NoMerge()
+                f[k] = self.vmerge(ca, cb, cond_b)
+            return Tree(f, None, a.ty or b.ty, a.meta)
+        return self.vmerge(a, b, cond_b)
+
+    def _typed_like(self, st, parent, key, other):
+        ty = other.ty if isinstance(other, (Sc, Tree)) else None
+        if isinstance(other, Sc) and other.ty == 'str':
+            ty = 'String'
+        return self.child(st, parent, key, ty)
 
     def same_state(self, a, b):
         """None if the states cannot be merged; else the list of cell keys whose values differ"""
